@@ -192,8 +192,10 @@ def paired_checks(rep, rng, drv, k, cls, inp, D, Dr, D0, a, b, c, convex, o, s, 
     for j, (q, u, v) in enumerate(zip(qp, x, xr)):
         rep.case(("refl_ppf", cls, inp["a"], inp["b"], c, convex, inp.get("s"), C.fhex(q)))
         if j in bad:
+            gap = (min(abs(float(D.cdf(float(u))) - float(D.cdf(-float(v)))), abs(float(Dr.cdf(-float(u))) - float(Dr.cdf(float(v)))))
+                   if np.isfinite(u) and np.isfinite(v) else None)
             ppf_pair_failed(rep, cls, inp, S, tie.get(j), "D.ppf(q) differs from -D'.ppf(1-q) by more than 1e-12 of the scale",
-                            dict(q=C.fhex(q)), -float(v), float(u), ".ppf")
+                            dict(q=C.fhex(q)), -float(v), float(u), ".ppf", gap)
     # ------------------------------------------------ reflection: tuning curves
     nsa = np.array(ns)
     qc = q_curve            # dyadic: 1-qc exact
@@ -207,9 +209,11 @@ def paired_checks(rep, rng, drv, k, cls, inp, D, Dr, D0, a, b, c, convex, o, s, 
         for j, (n, u, v) in enumerate(zip(ns, t, tr)):
             rep.case(("refl_qtc", cls, inp["a"], inp["b"], c, convex, inp.get("s"), mn, C.fhex(n)))
             if j in bad:
+                gap = (min(abs(float(D.cdf(float(u))) - float(D.cdf(-float(v)))), abs(float(Dr.cdf(-float(u))) - float(Dr.cdf(float(v)))))
+                   if np.isfinite(u) and np.isfinite(v) else None)
                 ppf_pair_failed(rep, cls, inp, S, tie.get(j),
                                 "quantile_tuning_curve of D differs from minus the complementary curve of D' by more than 1e-12 of the scale",
-                                dict(n=C.fhex(n), q=C.fhex(qc), minimize=mn), -float(v), float(u), ".quantile_tuning_curve")
+                                dict(n=C.fhex(n), q=C.fhex(qc), minimize=mn), -float(v), float(u), ".quantile_tuning_curve", gap)
         if not noisy:
             t, tr = D.average_tuning_curve(nsa, minimize=mn), Dr.average_tuning_curve(nsa, minimize=mnr)
             for n, u, v in zip(ns, t, tr):
@@ -237,8 +241,22 @@ def paired_checks(rep, rng, drv, k, cls, inp, D, Dr, D0, a, b, c, convex, o, s, 
         val = w * float(pp)
         ok = (plo - tp <= val <= phi + tp) if np.isfinite(val) else (val == phi or val == plo)
         if not ok:
-            rep.violate(what=f"(b-a)*D.pdf(a+(b-a)z) differs from D0.pdf(z) by more than {tol_cdf}", input=dict(inp, y=C.fhex(y), z=C.fhex(z)),
-                        expected=float(p0[1, j]), observed=val, call=cls + ".pdf")
+            # is the discrepancy inside the implementation's own last-place noise?  perturb D0's argument by up to 8 ulps
+            # of 1 (what the two ways of computing `loc` = (y-a)/(b-a) resp. z differ by) and look at the spread
+            kw = {}
+            if noisy and np.isfinite(val):
+                zz = np.array([z + jj * 2.0 ** -52 for jj in range(-8, 9)])
+                with warnings.catch_warnings():
+                    warnings.simplefilter("ignore")
+                    pv = np.asarray(D0.pdf(zz), dtype=float)
+                spread = float(np.max(pv) - np.min(pv))
+                if float(np.min(pv)) - tp <= val <= float(np.max(pv)) + tp and spread > 0:
+                    kw = dict(finding_key=KEY_PDF_NOISE, spread_over_8ulp=spread)
+            rep.violate(what=f"(b-a)*D.pdf(a+(b-a)z) differs from D0.pdf(z) by more than {tol_cdf}"
+                             + (": within the rounding noise of the noisy pdf itself (an 8-ulp change of the argument moves "
+                                "D0.pdf by more than the discrepancy)" if kw else ""),
+                        input=dict(inp, y=C.fhex(y), z=C.fhex(z)),
+                        expected=float(p0[1, j]), observed=val, call=cls + ".pdf", **kw)
     # ------------------------------------------------ location-scale: ppf, quantile curve, sample through the cdf
     def through_cdf(name, yD, y0, extra):
         """F0((yD - a)/(b-a)) against F0(y0)"""
@@ -269,27 +287,35 @@ def paired_checks(rep, rng, drv, k, cls, inp, D, Dr, D0, a, b, c, convex, o, s, 
                                 call=cls + ".average_tuning_curve")
 
 
-def ppf_pair_failed(rep, cls, inp, S, tie_margin, what, extra, expected, observed, meth):
+KEY_TIE = "C09-noisy-ppf-reflection-exact-bisection-tie"
+KEY_F4 = "F4-noisy-average-curve-premature-convergence-zero-inside-range"
+KEY_PDF_NOISE = "C09-noisy-pdf-scale-equivariance-within-rounding-noise-of-pdf"
+
+
+def ppf_pair_failed(rep, cls, inp, S, tie_margin, what, extra, expected, observed, meth, cdf_gap):
     """A mirrored ppf pair differs by more than 1e-12 of the scale.  The Lean theorem `noisy_ppf_reflect` says the two
     bisections are mirror images unless a midpoint's cdf value ties with the level; the model reports that margin:
-      * margin == 0 (an *exact* tie, e.g. c = 2 at q = 1/2 where F(midpoint) = 1/2): the code's `<` moves `hi` in both
-        instances, the results end on opposite sides of the tie point (2^-30 of the bracket apart, more where the
-        float cdf is flat, i.e. for q within ~1e-10 of 1 where 1-4e-12 and its neighbours are the same double) -> finding F8;
-      * 0 < margin < 1e-13: the two float cdfs (F(y) and 1 - F'(-y)) differ in the last place and decide differently;
-        this is rounding, outside what the property can mean -> counted and skipped;
+      * series regime, margin == 0 (an *exact* tie, e.g. c = 2 at q = 1/2 where F(midpoint) = 1/2) and the two results
+        within 2^-29 of the bracket of each other: the code's `<` moves `hi` in both instances, the results end on
+        opposite sides of the tie point -> known finding (keyed);
+      * margin < 1e-13 and the code's own cdf (of D or of D') takes the same value at the two answers to 1e-13 — ten times
+        finer than the 1e-12 to which the property itself pins the cdf identity — i.e. the float cdf is flat or noisy at
+        that level there (q within ~1e-9 of 0 or 1), or the two float cdfs decide a last-place tie differently: rounding,
+        outside what the property can mean -> counted and skipped;
       * otherwise a plain violation."""
-    if tie_margin is not None and tie_margin == 0.0:
-        rep.count("F8_exact_tie_pairs")
-        if rep.hist["F8_exact_tie_pairs"] > 3:      # keep room in the (bounded) violation list for anything else
+    diff = abs(expected - observed)
+    if tie_margin is not None and tie_margin == 0.0 and diff <= 2.0 ** -29 * S:
+        rep.count("exact_tie_pairs")
+        if rep.hist["exact_tie_pairs"] > 3:      # keep room in the (bounded) violation list for anything else
             return
         rep.violate(what=what + ": bisection tie-break (`cdf(mid) < q`) is not reflection-symmetric at an exact tie",
-                    input=dict(inp, **extra), expected=expected, observed=observed, call=cls + meth, finding_key="F8",
+                    input=dict(inp, **extra), expected=expected, observed=observed, call=cls + meth, finding_key=KEY_TIE,
                     tie_margin=tie_margin)
-    elif tie_margin is not None and tie_margin < 1e-13:
-        rep.skip("ppf_bisection_decision_within_1e-13_of_a_tie")
+    elif tie_margin is not None and tie_margin < 1e-13 and cdf_gap is not None and cdf_gap <= 1e-13:
+        rep.skip("ppf_pair_indistinguishable_by_the_cdf_at_1e-13_(bisection_decision_within_1e-13_of_a_tie)")
     else:
         rep.violate(what=what, input=dict(inp, **extra), expected=expected, observed=observed, call=cls + meth,
-                    tie_margin=tie_margin)
+                    tie_margin=tie_margin, cdf_gap=cdf_gap)
 
 
 def ppf_tie_margins(drv, k, a, b, c, o, convex, levels):
@@ -366,14 +392,14 @@ def integrated_checks(rep, rng, drv, k, inp, NQ, D, Dr, D0, a, b, c, convex, o, 
               Dr=is_F4(drv, Dr, -b, -a, c, o, not convex, None if mn is None else (not mn), n, vr, tr, S))
     detail = dict(D=dict(value=v, quadrature=tD), D0=dict(value=v0, quadrature=t0), Dr=dict(value=vr, quadrature=tr), F4=f4)
     if bad_a:
-        key = "F4" if (f4["D"] or f4["D0"]) else None
+        key = KEY_F4 if (f4["D"] or f4["D0"]) else None
         kw = dict(finding_key=key) if key else {}
         rep.violate(what="integrated average_tuning_curve of D is not a+(b-a) times that of D0 (2e-4 of the scale)"
                          + (": premature convergence of the trapezoid rule at the 1[y>0] jump inside [a-6o, b+6o]" if key else ""),
                     input=dict(inp, n=C.fhex(n), minimize=mn), expected=a + w * v0, observed=v, detail=detail,
                     call=cls + ".average_tuning_curve", **kw)
     if bad_r:
-        key = "F4" if (f4["D"] or f4["Dr"]) else None
+        key = KEY_F4 if (f4["D"] or f4["Dr"]) else None
         kw = dict(finding_key=key) if key else {}
         rep.violate(what="integrated average_tuning_curve of D is not minus the complementary curve of D' (2e-4 of the scale)"
                          + (": premature convergence of the trapezoid rule at the 1[y>0] jump inside [a-6o, b+6o]" if key else ""),
